@@ -1,4 +1,4 @@
-OPEN "pre.txt" FOR RANDOM AS #2 LEN = 4
-FIELD #2, 4 AS F2$
+OPEN "a.txt" FOR OUTPUT AS #1
+PRINT #1, "p" + CHR$(200) + "q"
 GET #1, 1
 PRINT "{"; F1$; "}"
